@@ -3,13 +3,16 @@
  * follow from C07's contract) */
 #ifndef NV_WEAK_GET_H
 #define NV_WEAK_GET_H
+/* evaluations of one lsearchk_t::get call: <= 10 * max_iterations with max_iterations <= 10000 (C07: two adjustment loops of <= max_iterations
+ * each, then do_get: <= max_iterations (backtrack, LeMarechal, More-Thuente), <= 2x (Fletcher), <= 7x + 1 (CG_DESCENT)) */
+#define NV_LS_MAX_EVALS 100000
 #define NV_COUNTER_OK (nv_ver_counter < 4000000000000000000ull)
 #define NV_STATE_OK(s) ((s)->eval_ver == (s)->ver && (s)->ver <= nv_ver_counter)
 #define NV_WEAK_LSEARCHK_GET_CONTRACT \
 __CPROVER_requires(__CPROVER_is_fresh(state, sizeof(*state)) && __CPROVER_is_fresh(self, sizeof(*self)) && __CPROVER_is_fresh(descent, sizeof(*descent)) && NV_STATE_OK(state) && NV_COUNTER_OK) \
 __CPROVER_assigns(*state, nv_ver_counter, nv_ls_ghost) \
 __CPROVER_ensures(__CPROVER_return_value._0 ==> (state->valid && state->ver != __CPROVER_old(state->ver))) \
-__CPROVER_ensures(NV_STATE_OK(state) && nv_ver_counter >= __CPROVER_old(nv_ver_counter) && nv_ver_counter - __CPROVER_old(nv_ver_counter) <= 40000) \
+__CPROVER_ensures(NV_STATE_OK(state) && nv_ver_counter >= __CPROVER_old(nv_ver_counter) && nv_ver_counter - __CPROVER_old(nv_ver_counter) <= NV_LS_MAX_EVALS) \
 __CPROVER_ensures(__CPROVER_return_value._0 ==> nv_ver_counter > __CPROVER_old(nv_ver_counter)) \
 __CPROVER_ensures(state->m_status == __CPROVER_old(state->m_status))
 #endif
